@@ -11,7 +11,8 @@ TECHNIQUE = 'Lean 4 closed form of diff / restore on the fetch model + different
 RULE = ("masters x working parameter sets reachable by fetch from generated sources (added, repeated and template-equal instances of "
         ".multiple objects, choices, Auto/None, non-canonical spellings); non-trivial = the difference is non-empty; "
         "impl-only stream: the same clauses on masters reached by a route from their text (used before, then derived by fetch / "
-        "format of layered defaults, copy, deepcopy, pickle, print+parse)")
+        "format of layered defaults, copy, deepcopy, pickle, print+parse); list-spelling stream: ints / floats defaults and "
+        "values written with brackets, commas, quotes, and the empty list in each of its spellings")
 ASSUMPTIONS = ["equality of working sets = equal extract() dumps"]
 
 
@@ -239,18 +240,18 @@ def walk_route(m, steps):
     return m
 
 
-def gen_route(rng, tree, srcs):
+def gen_route(rng, tree, srcs, lists=0):
     """use the parsed master, derive the next master from it, possibly once more; the sources of the derivation steps are
     valid for the master (a refused default would leave nothing to evaluate)"""
     steps = []
     for k in range(rng.choice([1, 1, 2])):
         if k > 0 or rng.random() < 0.85:
             steps.append({"op": "use", "sources": list(srcs) if k == 0 else
-                          [mgen.SourceGen(rng, unknown=False).text(tree) for _ in range(rng.choice([0, 1, 2]))]})
+                          [mgen.SourceGen(rng, unknown=False, lists=lists).text(tree) for _ in range(rng.choice([0, 1, 2]))]})
         op = rng.choice(ROUTES)
         st = {"op": op}
         if op in ("fetch", "format"):
-            st["sources"] = [mgen.SourceGen(rng, valid_only=True, unknown=False, disabled=False).text(tree)
+            st["sources"] = [mgen.SourceGen(rng, valid_only=True, unknown=False, disabled=False, lists=lists).text(tree)
                              for _ in range(rng.choice([1, 1, 2]))]
         if op == "pickle":
             st["protocol"] = rng.choice([0, 2, 4])
@@ -284,11 +285,11 @@ def master_has_nested_multiple(m, inside=False):
     return False
 
 
-def routed(ctx, rng, tree, mt, srcs):
+def routed(ctx, rng, tree, mt, srcs, lists=0):
     """impl-only stream: the four clauses on a master reached by a route (the Lean model takes master *texts*; a derived master
     carries template flags and object history that no text has)"""
-    steps = gen_route(rng, tree, srcs)
-    srcs2 = [mgen.SourceGen(rng).text(tree) for _ in range(rng.choice([0, 1, 1, 2]))]
+    steps = gen_route(rng, tree, srcs, lists)
+    srcs2 = [mgen.SourceGen(rng, lists=lists).text(tree) for _ in range(rng.choice([0, 1, 1, 2]))]
     case = {"master": mt, "route": steps, "sources": srcs2}
     try:
         m = walk_route(freephil.parse(input_string=mt), steps)
@@ -351,6 +352,7 @@ def run(ctx):
         if i % 250 == 0 and d is not None:
             ctx.sample({"master": mt, "sources": srcs, "difference": d.as_str()})
     deprecated_stream(ctx, cases, reqs, impls)
+    list_spelling_stream(ctx, cases, reqs, impls)
     resubstitution_stream(ctx)
     if reqs and ctx.mode != "impl-only":
         ctx.corr("fetch_diff", cases, reqs, impls)
@@ -380,6 +382,56 @@ def deprecated_stream(ctx, cases, reqs, impls):
         reqs.append(_fetch.fetch_req(mt, srcs, diff=True))
         impls.append(_fetch.fetch_impl(m, [freephil.parse(input_string=s_) for s_ in srcs], diff=True))
         cases.append(case)
+
+
+def list_spelling_stream(ctx, cases, reqs, impls):
+    """values spelt non-canonically, for the numeric list types (own generator state: the base stream stays what it was): master
+    defaults, further instances and source values of ints / floats parameters are drawn from mgen.LIST_SPELLINGS -- enclosing
+    brackets in any nesting, commas / semicolons, quoted words, and the EMPTY list (`()`, `[]`, `""`, `","` ...), which is a
+    value like any other: W.extract() shows [], so a difference that omits it (or keeps it when [] is the default) is wrong.
+    Masters lean towards the numeric list types; the other types stay in (a parameter of another type next to the list)."""
+    import random
+    rng = random.Random(ctx.seed * 1000003 + 86)
+    types = list(mgen.TYPES) + [t for t in mgen.TYPES if mgen.is_number_list(t)] * 3
+    for i in range(ctx.scale(300, 7000, 1500)):
+        if ctx.time_left() < 30:
+            break
+        tree, mt, srcs = _fetch.gen(rng, nested=False, lists=0.7, types=types)
+        m = freephil.parse(input_string=mt)
+        ss = [freephil.parse(input_string=s) for s in srcs]
+        f, d = check(m, ss, tree)
+        ctx.case((mt, tuple(srcs)), nontrivial=d is not None and d.as_str() != "")
+        ctx.count("list_spelling_master")
+        k = empty_list_in_working_set(m, ss)
+        if k:
+            ctx.count("empty_list_in_W:" + k)
+        case = {"master": mt, "sources": srcs}
+        if f:
+            ctx.fail(case, f, finding=finding_classes(m, ss, f), model_violates=None)
+        reqs.append(_fetch.fetch_req(mt, srcs, diff=True))
+        impls.append(_fetch.fetch_impl(m, [freephil.parse(input_string=s_) for s_ in srcs], diff=True))
+        cases.append(case)
+        if i % 3 == 0:
+            # the same master reached by a route (layered defaults / copies): a derived master holds the list as given
+            routed(ctx, rng, tree, mt, srcs, lists=0.7)
+
+
+def empty_list_in_working_set(m, ss):
+    """distribution only: does W hold an empty list, and is the master default of that parameter empty too?"""
+    try:
+        w = m.fetch(sources=ss)
+        md = {}
+        for l in m.all_definitions():
+            md.setdefault(l.path, l.object)
+        out = None
+        for l in w.all_definitions():
+            if l.object.extract() == [] and l.path in md:
+                out = "default_empty" if md[l.path].extract() == [] else "default_not_empty"
+                if out == "default_not_empty":
+                    return out
+        return out
+    except BaseException:
+        return None
 
 
 TEXT_TYPES = ("str", "path", "key", "strings", None)
